@@ -991,6 +991,8 @@ enum Adv {
 /// Lets tracee `t` run: completes the parked call (if any), then continues up
 /// to the entry of its next decision point (sched mode) or to its end.
 static ALLPOINTS: std::sync::atomic::AtomicBool = std::sync::atomic::AtomicBool::new(false);
+/// replaying a model behaviour: the application's own calls inside an operation are scheduling steps too
+static FOLLOWING: std::sync::atomic::AtomicBool = std::sync::atomic::AtomicBool::new(false);
 
 fn advance(t: &mut Tracee, ctx: &mut RunCtx, sched: bool, stop_after_ret: bool) -> Adv {
     let pid = t.pid;
@@ -1155,7 +1157,8 @@ fn advance(t: &mut Tracee, ctx: &mut RunCtx, sched: bool, stop_after_ret: bool) 
                 }
             }
         }
-        let allp = ALLPOINTS.load(std::sync::atomic::Ordering::Relaxed) && call.name != "rec" && (t.phase == "lib" || t.phase == "cb");
+        let allp = ALLPOINTS.load(std::sync::atomic::Ordering::Relaxed) && call.name != "rec"
+            && (t.phase == "lib" || t.phase == "cb" || (t.phase == "prep" && FOLLOWING.load(std::sync::atomic::Ordering::Relaxed)));
         if sched && (allp || is_decision_point(&call, &t.phase, &t.own_temps)) && !t.world {
             t.parked = Some(call);
             return Adv::Parked;
@@ -1210,9 +1213,8 @@ fn record_exit(t: &mut Tracee, ctx: &mut RunCtx, call: &Call, rv: i64, injected:
     // merge consecutive reads on the same descriptor
     if call.name == "read" {
         let key = (t.part, call.fd.unwrap_or(-1));
-        if ctx.last_read == Some(key) && ctx.emul_strict == false {
-            return false;
-        }
+        // (consecutive reads are all recorded: under relatime every read of a file whose atime <= mtime advances atime)
+        let _ = key;
         ctx.last_read = Some(key);
     } else {
         ctx.last_read = None;
@@ -1413,6 +1415,9 @@ struct StageResult {
 enum Strategy<'a> {
     Explicit(&'a [usize]),
     Random(&'a mut Rng),
+    /// A total order of the participants' in-operation system calls (as a model behaviour gives it): at every step
+    /// the participant whose next call comes first in that order runs.
+    Follow(Vec<usize>),
 }
 
 fn run_stage(stage: &Value, ctx: &mut RunCtx, actor: &str, job: &Value, strategy: Strategy) -> StageResult {
@@ -1462,6 +1467,7 @@ fn run_stage(stage: &Value, ctx: &mut RunCtx, actor: &str, job: &Value, strategy
     let sched = stage["mode"].as_str().unwrap_or("seq") == "sched";
     // "allpoints": every library call is a scheduling step (a peer can be frozen between ANY two of its calls)
     ALLPOINTS.store(stage["allpoints"].as_bool().unwrap_or(false), std::sync::atomic::Ordering::Relaxed);
+    FOLLOWING.store(job["follow"].is_array(), std::sync::atomic::Ordering::Relaxed);
     let mut tracees: Vec<Tracee> = Vec::new();
     for (i, p) in parts.iter().enumerate() {
         let mut spec = subst(p, &top);
@@ -1543,6 +1549,7 @@ fn run_stage(stage: &Value, ctx: &mut RunCtx, actor: &str, job: &Value, strategy
             }
         }
         let mut solo_now = false;
+        let progress: Vec<(usize, usize)> = tracees.iter().map(|t| (t.part, t.nrec)).collect();
         let choice = if let (Some(after), Some(sp)) = (solo_after, solo_part) {
             if step > after {
                 solo_now = true;
@@ -1551,10 +1558,10 @@ fn run_stage(stage: &Value, ctx: &mut RunCtx, actor: &str, job: &Value, strategy
                     None => break,
                 }
             } else {
-                pick(&enabled, &mut strategy, &mut explicit_pos, last, &mut res)
+                pick(&enabled, &mut strategy, &mut explicit_pos, last, &mut res, &progress)
             }
         } else {
-            pick(&enabled, &mut strategy, &mut explicit_pos, last, &mut res)
+            pick(&enabled, &mut strategy, &mut explicit_pos, last, &mut res, &progress)
         };
         last = choice;
         let before_ops = tracees[choice].ops_done;
@@ -1593,7 +1600,7 @@ fn emit_stage_end(ctx: &mut RunCtx, t: &Tracee) {
     }
 }
 
-fn pick(enabled: &[usize], strategy: &mut Strategy, pos: &mut usize, last: usize, res: &mut StageResult) -> usize {
+fn pick(enabled: &[usize], strategy: &mut Strategy, pos: &mut usize, last: usize, res: &mut StageResult, progress: &[(usize, usize)]) -> usize {
     if enabled.len() == 1 {
         return enabled[0];
     }
@@ -1605,6 +1612,28 @@ fn pick(enabled: &[usize], strategy: &mut Strategy, pos: &mut usize, last: usize
             c
         }
         Strategy::Random(rng) => enabled[rng.below(enabled.len())],
+        Strategy::Follow(order) => {
+            // position in the order of each enabled participant's next (not yet performed) call
+            let mut best = (usize::MAX, default);
+            for &i in enabled {
+                let (part, done) = progress[i];
+                let mut seen = 0usize;
+                let mut at = usize::MAX;
+                for (j, &q) in order.iter().enumerate() {
+                    if q == part {
+                        if seen == done {
+                            at = j;
+                            break;
+                        }
+                        seen += 1;
+                    }
+                }
+                if at < best.0 {
+                    best = (at, i);
+                }
+            }
+            best.1
+        }
     };
     res.choices.push(c);
     res.enabled.push(enabled.to_vec());
@@ -1678,6 +1707,8 @@ fn run_once(job: &Value, runno: u64, actor: &str, work: &str, out: &mut dyn Writ
         let strat = if is_sched {
             if let Some(r) = rng.as_deref_mut() {
                 Strategy::Random(r)
+            } else if let Some(f) = job["follow"].as_array() {
+                Strategy::Follow(f.iter().map(|x| x.as_u64().unwrap_or(0) as usize).collect())
             } else {
                 Strategy::Explicit(sched_prefix)
             }
